@@ -156,7 +156,9 @@ func gridValues() []cmpVal {
 	spell([]string{"2", "2.0", "1+1"}, big.NewRat(2, 1))
 	spell([]string{"-2", "-2e0"}, big.NewRat(-2, 1))
 	spell([]string{"1e-7", "0.0000001"}, ratOfLit("1e-7"))
-	for _, s := range []string{"", "a", "b", "ab", "B", "10", "9", "é", "中", "a\x00", "\xff", "a ", "A", "1", "1.0", "0", "true", "null", "abc", "aB"} {
+	for _, s := range []string{"", "a", "b", "ab", "B", "10", "9", "é", "中", "a\x00", "\xff", "a ", "A", "1", "1.0", "0", "true", "null", "abc", "aB",
+		// texts that denote the same instant / number when read as something else: still different strings
+		"2024-01-02T03:04:05Z", "2024-01-02T03:04:05+00:00", "2024-01-02T11:04:05+08:00", "1e1", "0001-01-01T00:00:00Z"} {
 		vs = append(vs, strVal(s))
 	}
 	vs = append(vs, boolVal(true), boolVal(false))
@@ -239,12 +241,22 @@ func respell(t *rapid.T, d decOperand) (string, *big.Rat) {
 
 // TestC05Random: random decimals in random spellings, near neighbours, random byte strings.
 func TestC05Random(t *testing.T) {
-	run := h.Begin("C05", "random", "rapid: pairs of random decimals (C04 operand generator) each re-spelled at random (plain, exponent, shifted exponent, leading/trailing zeros, arithmetic identity), pairs that differ only in the last of 34 digits or are equal, and pairs of random byte strings (shared prefixes, invalid UTF-8); same oracle as the grid; non-trivial as in the grid; distinct by the pair of texts")
+	run := h.Begin("C05", "random", "rapid: pairs of random decimals (C04 operand generator) each re-spelled at random (plain, exponent, shifted exponent, leading/trailing zeros, arithmetic identity), pairs that differ only in the last of 34 digits or are equal, pairs of random byte strings (shared prefixes, invalid UTF-8), pairs of strings that look like timestamps / numbers / keywords (equal, extended by one character, unrelated); same oracle as the grid; non-trivial as in the grid; distinct by the pair of texts")
 	defer run.End(t)
 	h.RapidSetup(h.N(8000, 3000000), "c05rand")
 	rapid.Check(t, func(rt *rapid.T) {
 		var c cmpCase
-		switch rapid.IntRange(0, 3).Draw(rt, "form") {
+		switch rapid.IntRange(0, 4).Draw(rt, "form") {
+		case 4: // strings that look like values of another kind compare as strings
+			a, _ := genLookalike(rt)
+			b, _ := genLookalike(rt)
+			switch rapid.IntRange(0, 3).Draw(rt, "rel") {
+			case 0:
+				b = a
+			case 1:
+				b = a + rapid.SampledFrom([]string{"0", " ", ".0", "Z", "a"}).Draw(rt, "suffix")
+			}
+			c = cmpCase{strVal(a), strVal(b)}
 		case 0:
 			a, b := genOperand(rt, "a"), genOperand(rt, "b")
 			sa, ra := respell(rt, a)
